@@ -210,6 +210,8 @@ let exec (s : t) (verbose : bool) (f : string array) (obs : string option) : str
     let c = { c_fsize = n_of_string f.(2); c_sync = n_of_string f.(3); c_bps = n_of_string f.(4);
               c_io = n_of_string f.(5) } in
     s.cfg <- c;
+    if Array.length f > 7 then begin
+      Iter_driver.kind := int_of_string f.(6); Iter_driver.shards := int_of_string f.(7) end;
     (match db_open c s.disk with
      | (OpenOk (d, k), evs) -> s.db <- Some d; s.disk <- k; "ok" ^ events_str evs
      | (OpenErr (e, k), evs) -> s.disk <- k; "err " ^ eerr_name e ^ events_str evs)
